@@ -7,7 +7,7 @@
 -/
 import ILV.Lemmas.TextRule
 namespace ILV.Props.C09
-open ILV.Text
+open ILV.RText
 
 /-! ### arithmetic: parse ∘ print = id -/
 
@@ -43,7 +43,7 @@ theorem arith_roundtrip_needs_names :
     is read back from its printed tokens: variables, integers, floats, strings, booleans, `_`,
     arithmetic, aggregates, vectors and builtin calls. -/
 theorem term_roundtrip (t : Term) (hwf : t.wf = true) (hl : t.litStable = true) (hs : t.sciHidden = false) :
-    parseTerm (printTerm t) = some t := ILV.Text.term_roundtrip t hwf hl hs
+    parseTerm (printTerm t) = some t := ILV.RText.term_roundtrip t hwf hl hs
 
 example :
     let t : Term := .call "euclidean" [.var "V", .vec [⟨0x3ff0000000000000, "1", none⟩, ⟨0, "0", none⟩],
@@ -56,7 +56,7 @@ example :
     with a closing parenthesis is read back from its printed tokens — head, `<-`, comma-separated
     positive / negated atoms and comparisons. -/
 theorem rule_roundtrip (r : Rule) (hwf : r.wf = true) (hl : r.litStable = true) (hs : r.sciHidden = false)
-    (hp : r.atomParen = false) : parseRule (printRule r) = some r := ILV.Text.rule_roundtrip r hwf hl hs hp
+    (hp : r.atomParen = false) : parseRule (printRule r) = some r := ILV.RText.rule_roundtrip r hwf hl hs hp
 
 /-! ### the paths, relative to the print/parse round trip -/
 
